@@ -47,6 +47,40 @@ def violation(what, case: Case, cfg, impl=None, expected=None, sig=None, **kw):
     return v
 
 
+SP_KEYS = ("sp_sat", "sp_voters", "sp_only")
+
+
+def effective(case: Case, cfg):
+    """the election a call is about.  The rules document: "If a satisfaction profile is provided, the satisfaction
+    argument is disregarded".  So when the caller hands over its own satisfaction profile (cfg["sp_sat"]: its measure,
+    cfg["sp_voters"]: the voters it holds, None = all), satisfactions, supporters and welfare are those of that object,
+    whatever sat_class names and whoever else is in the profile argument.  -> (case, cfg) to evaluate the definition on;
+    the tie-breaking rule still sees the profile argument (callers keep the original case for that)"""
+    if not cfg.get("sp_sat"):
+        return case, cfg
+    voters = cfg.get("sp_voters")
+    ballots = case.ballots if voters is None else [case.ballots[i] for i in voters]
+    case_eff = Case(case.projects, case.budget, case.btype, ballots, case.seed, **case.cfg)
+    cfg_eff = {k: v for k, v in cfg.items() if k not in SP_KEYS}
+    cfg_eff["sat"] = cfg["sp_sat"]
+    return case_eff, cfg_eff
+
+
+def well_formed(case: Case, cfg):
+    """is (case, cfg) an input at all?  Shrinking drops voters and projects of the case but leaves the configuration alone:
+    an initial allocation naming a dropped project, or voter indices beyond the remaining voters, make a call that fails
+    in the harness — not an input of the property (replays answer "holds" for those, so that the shrinker refuses the step)"""
+    names = set(case.names)
+    if any(n not in names for n in (cfg.get("init") or [])):
+        return False
+    if any(not (0 <= i < len(case.ballots)) for i in (cfg.get("sp_voters") or [])):
+        return False
+    return True
+
+
+NOT_AN_INPUT = "not a well-formed input (initial allocation or voter indices outside the election): nothing to check"
+
+
 class Item:
     def __init__(self, case, cfg, built, ans, raw, line):
         self.case, self.cfg, self.built, self.ans, self.raw, self.line = case, cfg, built, ans, raw, line
